@@ -82,6 +82,7 @@ def run(tier, seed, rep):
         nvis = vis_checks(rep)
         name, res, consts = mc.result()
         rep.add_model(name, res, consts)
+    evs = [e for e in evs if e.get("op") != "panic"]      # PANIC_FILTER: statistics only (panic events were judged by TLC above)
     rep.cov["programs"] = len(defs) - len(failed) + nvis
     rep.cov["evaluations"] = 5 * sum(1 for e in evs if e["op"] == "disc") + sum(1 for e in evs if e["op"] != "disc") + nvis
     rep.cov["distinct_nontrivial"] = len({(e["def"], e["i"]) for e in evs if e["op"] == "disc"})
